@@ -11,6 +11,15 @@ Lemma d_mem_app {A} k (d d' : list (nat * A)) : d_mem k (d ++ d') = d_mem k d ||
 Proof. unfold d_mem. induction d as [|[k' y] t IH]; cbn [app d_find]; [destruct (d_find k d'); reflexivity|]. destruct (Nat.eqb k' k); [reflexivity|exact IH]. Qed.
 Lemma d_set_absent {A} k (x : A) d : d_mem k d = false -> d_set k x d = d ++ [(k, x)].
 Proof. unfold d_mem. induction d as [|[k' y] t IH]; cbn [d_set d_find app]; [reflexivity|]. destruct (Nat.eqb k' k); [discriminate|]. intros H. rewrite IH by exact H. reflexivity. Qed.
+Lemma const_fold {A} (c : A) L : NoDup L -> forall d0 : list (nat * A), (forall x, In x L -> d_mem x d0 = false) ->
+  fold_left (fun d_ v => d_set v c d_) L d0 = d0 ++ map (fun v => (v, c)) L.
+Proof. induction L as [|x L IH]; intros Hnd d0 H0; cbn [fold_left map]; [now rewrite app_nil_r|]. inversion Hnd as [|? ? Hx HL]; subst.
+  rewrite d_set_absent by (apply H0; now left). rewrite IH; [rewrite <- app_assoc; reflexivity|exact HL|].
+  intros y Hy. rewrite d_mem_app, (H0 y) by (now right). unfold d_mem. cbn [d_find]. destruct (Nat.eqb_spec x y) as [->|Q]; [contradiction|reflexivity]. Qed.
+Lemma d_find_const {A} (c : A) v L : d_find v (map (fun w => (w, c)) L) = if s_mem v L then Some c else None.
+Proof. unfold s_mem. induction L as [|a L IH]; [reflexivity|]. cbn [map d_find existsb]. rewrite (Nat.eqb_sym v a). destruct (Nat.eqb a v); [reflexivity|exact IH]. Qed.
+Lemma d_keys_const {A} (c : A) L : d_keys (map (fun w => (w, c)) L) = L.
+Proof. unfold d_keys. rewrite map_map. cbn [fst]. apply map_id. Qed.
 Lemma zero_fold L : NoDup L -> forall d0 : dictZ, (forall x, In x L -> d_mem x d0 = false) ->
   fold_left (fun d_ v => d_set v 0 d_) L d0 = d0 ++ map (fun v => (v, 0)) L.
 Proof. induction L as [|x L IH]; intros Hnd d0 H0; cbn [fold_left map]; [now rewrite app_nil_r|]. inversion Hnd as [|? ? Hx HL]; subst.
